@@ -258,6 +258,11 @@ def _request(pool, script, name, out):
             data = r.read()
             r.release_conn()
             out[name] = ("ok", r.status, data)
+        elif script == 5:
+            # the very first request on the wire is reset and nothing retries: this caller (whichever thread it is) gets the error
+            # and leaves a None placeholder in the queue — possibly on top of a connection the other thread has just returned
+            r = pool.urlopen("GET", "/%s" % name, retries=False, pool_timeout=None)
+            out[name] = ("ok", r.status, r.data)
         elif script == 4:
             # the connection goes back to the pool inside urlopen (release_conn=True) although the body is still unread
             # (preload_content=False): the response must not hand the same connection back a second time
@@ -284,7 +289,7 @@ def _request(pool, script, name, out):
 
 def _schedule(maxsize, block, script, other, w1, x1, w2):
     global SCHED
-    peer = TagPeer(script == 1, script == 3)
+    peer = TagPeer(script in (1, 5), script == 3)
     netw = N.install(peer)
     E.install_clock()
     plan = [("W", w1), ("X", x1), ("W", w2), ("X", None), ("W", None)]
@@ -376,7 +381,7 @@ def _schedule(maxsize, block, script, other, w1, x1, w2):
                 early_release = script == 4 and isinstance(e, HTTPError) and "ResponseNotReady" in repr(e)
                 # (script 4 puts a connection with an unread response back: another thread that picks it up is refused by
                 #  http.client's ResponseNotReady guard — the documented price of release_conn=True without preloading)
-                if other not in ("close", "request+close") and not (script in (1, 3) or isinstance(e, EmptyPoolError) or early_release):
+                if other not in ("close", "request+close") and not (script in (1, 3, 5) or isinstance(e, EmptyPoolError) or early_release):
                     return _fail("thread %s failed with %r although nothing went wrong" % (name, e))
         if peer.users:
             return _fail("one connection carried two threads' requests at the same time: %r" % (peer.users,))
@@ -393,6 +398,16 @@ def _schedule(maxsize, block, script, other, w1, x1, w2):
             conns = [c for c in list(q.queue) if c is not None]
             if len(set(id(c) for c in conns)) != len(conns):
                 return _fail("schedule (%d,%d,%d): the same connection object is in the pool twice" % (w1, x1, w2))
+            # a pool that is simply dropped (no close()) gives its sockets back through its finalizer, whatever mixture of live
+            # connections and None placeholders the two requests left in the queue
+            arrangement = ["live" if c is not None else "None" for c in list(q.queue)]
+            out.clear()
+            o = e = q = conns = None
+            del pool
+            gc.collect()
+            if netw.open_now != 0:
+                return _fail("schedule (%d,%d,%d): %d socket(s) still open after the pool was dropped (queue bottom->top %r)"
+                             % (w1, x1, w2, netw.open_now, arrangement))
             mark("both served")
         else:
             if out["W"][0] == "hang":
@@ -433,11 +448,13 @@ def JOBS(tier):
     jobs = []
     for maxsize in (1, 2):
         for block in (True, False):
-            for script in (0, 1, 2, 3):
+            for script in (0, 1, 2, 3, 5):
                 for other in ("close", "request", "stream", "request+close"):
                     if quick and other == "stream" and script not in (0, 2):
                         continue
                     if script == 4 and other != "request":
+                        continue
+                    if script == 5 and (other != "request" or maxsize != 2):
                         continue      # (a pooled connection whose response is still being read + close(): the caller gave it away)
                     if other == "request+close" and (script not in (0, 2) or (quick and maxsize == 2)):
                         continue
